@@ -59,6 +59,10 @@ type Plan struct {
 	// FinalTunFail: before the final Close the TUN device reports a fatal read error (the
 	// interface deleted under a running device): the device must close itself.
 	FinalTunFail bool `json:"final_tunfail,omitempty"`
+	// SendDelayUs > 0: every bind.Send call (except cookie replies, which the code sends without
+	// the net lock) is stamped on entry, held for this long inside the sim bind's gate, and
+	// stamped again: a send in flight when Down / Close / BindUpdate run.
+	SendDelayUs int `json:"send_delay_us,omitempty"`
 	// Unsafe lifts the exclusion of the overlaps behind the listed lock-order findings
 	// (direct BindUpdate together with peer-set / private-key changes).  Never set by the
 	// random generator of the check; used by the dedicated F3 family runs only.
@@ -95,6 +99,9 @@ func genPlan(seed int64, round int, callers, opsPer int) Plan {
 	p.FinalClose2 = r.Intn(2) == 0
 	tunFailMid := r.Intn(4) == 0 // the mid-plan closer does not call Close: the TUN read fails fatally instead
 	p.FinalTunFail = r.Intn(6) == 0
+	if r.Intn(4) == 0 {
+		p.SendDelayUs = 300 + r.Intn(2500)
+	}
 	for c := 0; c < callers; c++ {
 		var ops []PlanOp
 		n := opsPer/2 + r.Intn(opsPer)
@@ -192,8 +199,10 @@ const (
 	evPeerRunning // the harness found a peer running (number taken AFTER the reads)
 	evInvPeerCfg  // UAPI set with a peer section: handlePostConfig may start the peer
 	evRetPeerCfg
-	evObsBegin // the harness is about to read the peers' run state (number taken BEFORE the reads)
-	evRecvLoop // the harness found a RoutineReceiveIncoming goroutine parked in its loop (two scans)
+	evObsBegin  // the harness is about to read the peers' run state (number taken BEFORE the reads)
+	evRecvLoop  // the harness found a RoutineReceiveIncoming goroutine parked in its loop (two scans)
+	evSendEnter // a bind.Send call has started (stamped in the sim bind's SendGate)
+	evSendExit  // ... and is about to complete (the gate returns, the datagram is handed over next)
 )
 
 type Ev struct {
@@ -713,6 +722,25 @@ func runRound(plan Plan, outDir string, hangLimit time.Duration) Case {
 		panic(err)
 	}
 	r.w = w
+	if plan.SendDelayUs > 0 {
+		// set before any caller or device routine that sends exists
+		var sendID atomic.Int64
+		w.Bind.SendGate = func(bufs [][]byte, to netip.AddrPort) {
+			if len(bufs) > 0 && len(bufs[0]) > 0 && bufs[0][0] == 3 {
+				return // cookie reply: SendHandshakeCookie calls bind.Send without net.RLock (existing code)
+			}
+			id := int(sendID.Add(1))
+			s0 := sim.Seq.Add(1)
+			r.mu.Lock()
+			r.evs = append(r.evs, Ev{Seq: s0, Code: evSendEnter, Op: id})
+			r.mu.Unlock()
+			time.Sleep(time.Duration(plan.SendDelayUs) * time.Microsecond)
+			s1 := sim.Seq.Add(1)
+			r.mu.Lock()
+			r.evs = append(r.evs, Ev{Seq: s1, Code: evSendExit, Op: id})
+			r.mu.Unlock()
+		}
+	}
 	pub := w.DevPub
 	r.devPub.Store(&pub)
 	r.curKey = w.DevPriv
